@@ -62,4 +62,9 @@ def evidence(ctx):
         "one fresh process per case; the second resource is first touched from a thread spawned after initialisation",
         "the case space (a finite grid) is enumerated completely; the specification is the acceptance predicate and the geometry clause",
     ]
-    vlib.write_evidence(ctx, extra={"exhaustive": True})
+    vlib.write_evidence(ctx, level="fault_enumeration", extra={
+        "evaluations": ctx.notes.get("cases", 0),
+        "distinct_nontrivial": ctx.notes.get("accepted_configurations", 0),
+        "exhaustive": True},
+        rule="the complete grid of (sample_count_total, interval_ms_total, sample_count, interval_ms) x {entity, YAML}, one fresh process per case; "
+             "cases are distinct by construction; non-trivial = the configuration is accepted, so statistics nodes are really built from three threads and their geometry is read")
